@@ -26,7 +26,8 @@ MANIFEST = {
     "ref": "6 C03",
 }
 RULE = ("programs as in C01 plus handlers inserted at the front of exception_handlers for custom Exception/"
-        "BaseException subclasses, KeyboardInterrupt, an AssertionError subclass, SetupError; exhaustive: all ordered "
+        "BaseException subclasses, KeyboardInterrupt, an AssertionError subclass, SetupError, before the run or by a "
+        "statement while it runs; exhaustive: all ordered "
         "pairs and triples of 29 behaviours over (test, tearDown, cleanup) and (setUp-registered cleanup, setUp); "
         "non-trivial = at least 2 raising statements or an inserted handler that claims a raised exception; "
         "distinct = distinct JSON")
